@@ -1692,7 +1692,8 @@ func c18ShortBodies(c *Ctx) {
 				}
 				// on the err == io.EOF edge, with something still outstanding
 				if dominatedByEdge(r.Block(), Rel{Op: token.EQL, X: Any(), Y: isEOF}, false) &&
-					(dominatedByEdge(r.Block(), Rel{Op: token.GTR, X: Load(rem), Y: ConstI(0)}, false) || dominatedByEdge(r.Block(), Rel{Op: token.NEQ, X: Load(rem), Y: ConstI(0)}, false)) {
+					(dominatedByEdge(r.Block(), Rel{Op: token.GTR, X: Load(rem), Y: ConstI(0)}, false) || dominatedByEdge(r.Block(), Rel{Op: token.NEQ, X: Load(rem), Y: ConstI(0)}, false)) &&
+					!dependsOnReadCount(r.Block()) {
 					found = true
 				}
 			})
@@ -4341,7 +4342,9 @@ func c17LastHandlerStopsListening(c *Ctx) {
 		}
 		n++
 		f := w.Fn
-		nonEmpty := EdgeRel(Rel{Op: token.EQL, X: LenOf(Load(hf)), Y: ConstI(0)}, true)
+		// len(handlers) != 0, also written len(handlers) > 0 / !(len(handlers) == 0)
+		nonEmpty := OrEdge(EdgeRel(Rel{Op: token.EQL, X: LenOf(Load(hf)), Y: ConstI(0)}, true), EdgeRel(Rel{Op: token.GTR, X: LenOf(Load(hf)), Y: ConstI(0)}, false),
+			EdgeRel(Rel{Op: token.GEQ, X: LenOf(Load(hf)), Y: ConstI(1)}, false))
 		c.cut(R, "last:"+rootFn(f).Name()+" stops a closed single-use transport when it removes the last handler", &Cut{Fn: f, NoInline: true,
 			Start: func(in ssa.Instruction) bool { return in == w.Instr }, Target: isReturn, Barrier: CallsTo(msl), Edge: nonEmpty},
 			"after Listener.Close, the read loop (goroutine, send-queue goroutine and — for ListenAddr — the UDP socket) is released only when the handler map is seen empty")
@@ -5397,4 +5400,172 @@ func c17OpenedSocketClosedOnError(c *Ctx) {
 		}
 	}
 	c.Floor(R, "functions of the root package that open a UDP socket and own it", n, 4)
+}
+
+// C04.8 (also C01.14): once handling a frame of a packet failed, no later frame of that packet is handled (the packet
+// is only parsed on, for the qlog): every handler call in handleFrames — stream, ACK, datagram and the less common
+// frames — lies beyond the false edge of the "skip handling" flag. A later frame handled after a failure overwrites
+// the recorded error with its own (nil) result: the FLOW_CONTROL_ERROR of the first STREAM frame is lost and the
+// connection stays open.
+func skipHandlingGuardsEveryHandler(c *Ctx, R string) {
+	f := c.fn("", "Conn", "handleFrames")
+	// the flag: a boolean φ with a constant-true input that at least three branches test
+	var flag *ssa.Phi
+	eachInstr(f, func(in ssa.Instruction) {
+		ph, ok := in.(*ssa.Phi)
+		if !ok || in.Parent() != f {
+			return
+		}
+		if b, isB := ph.Type().Underlying().(*types.Basic); !isB || b.Kind() != types.Bool {
+			return
+		}
+		hasTrue := false
+		for _, e := range ph.Edges {
+			if isConstBool(e, true) {
+				hasTrue = true
+			}
+		}
+		n := 0
+		if ph.Referrers() != nil {
+			for _, r := range *ph.Referrers() {
+				if _, ok := r.(*ssa.If); ok {
+					n++
+				}
+			}
+		}
+		if hasTrue && n >= 3 && flag == nil {
+			flag = ph
+		}
+	})
+	if !c.Check(flag != nil, R, "anchor:handleFrames keeps a skip-handling flag that its frame branches test", "-", "boolean φ set to true after a handler error, tested by ≥ 3 branches") {
+		return
+	}
+	handlers := OrIP(CallsTo(c.obj("", "streamsMap", "HandleStreamFrame")), CallsTo(c.obj("", "Conn", "handleAckFrame")),
+		CallsTo(c.obj("", "Conn", "handleDatagramFrame")), CallsTo(c.obj("", "Conn", "handleFrame")))
+	c.Floor(R, "frame handler calls in handleFrames", countInstr(f, handlers), 4)
+	c.cut(R, "skip:no frame is handled after an earlier frame of the packet failed", &Cut{Fn: f, Target: handlers, NoInline: true,
+		Edge: EdgeRel(BoolTrue(func(v ssa.Value) bool { return v == ssa.Value(flag) }), true)},
+		"with a tracer attached the loop keeps parsing after an error; a handler run then replaces the recorded error with its own result")
+}
+
+// C17.21: the keep-alive PING leaves early enough for the peer: nextKeepAliveTime is lastPacketReceivedTime +
+// max(keepAliveInterval, 1.5·PTO) — the floor is PTO·3/2 (a larger floor lets the peer's idle timer win at large RTTs).
+func c17KeepAliveFloor(c *Ctx) {
+	const R = "C17.21"
+	f := c.fn("", "Conn", "nextKeepAliveTime")
+	kai := c.fld("", "Conn", "keepAliveInterval")
+	pto := c.obj("internal/utils", "RTTStats", "PTO")
+	n := 0
+	eachInstr(f, func(in ssa.Instruction) {
+		cl, ok := in.(*ssa.Call)
+		if !ok || builtinName(&cl.Call) != "max" {
+			return
+		}
+		n++
+		okv := MinMaxOf("max", Load(kai), BinV(token.QUO, BinV(token.MUL, CallTo(pto, -1), ConstI(3)), ConstI(2)))(cl)
+		c.Check(okv, R, "shape:keep-alive interval = max(configured interval, PTO·3/2)", c.P.InstrPos(in), "the PING must be sent before 2·PTO short of the idle timeout so that it (or a retransmission) reaches the peer in time")
+	})
+	c.Floor(R, "max() in nextKeepAliveTime", n, 1)
+}
+
+// C18.12: the client asks for gzip transparently only if the application did not set Accept-Encoding itself (and no
+// Range, not HEAD, compression not disabled): requestedGzip = true lies beyond Header.Get("Accept-Encoding") == "".
+func c18TransparentGzipOnlyWithoutAcceptEncoding(c *Ctx) {
+	const R = "C18.12"
+	f := c.fn("http3", "RequestStream", "sendRequestHeader")
+	rg := c.fld("http3", "RequestStream", "requestedGzip")
+	sets := func(in ssa.Instruction) bool {
+		st, ok := in.(*ssa.Store)
+		return ok && fieldOfAddress(st.Addr) == rg && isConstBool(st.Val, true)
+	}
+	c.Floor(R, "places where sendRequestHeader decides to request gzip", countInstr(f, sets), 1)
+	get := func(name string) VP {
+		return func(v ssa.Value) bool {
+			cl, ok := v.(*ssa.Call)
+			if !ok || cl.Call.StaticCallee() == nil || cl.Call.StaticCallee().Name() != "Get" || len(cl.Call.Args) != 2 {
+				return false
+			}
+			k, ok := cl.Call.Args[1].(*ssa.Const)
+			return ok && k.Value != nil && k.Value.Kind() == constant.String && strings.EqualFold(constant.StringVal(k.Value), name)
+		}
+	}
+	for _, h := range []string{"Accept-Encoding", "Range"} {
+		c.cut(R, "own:gzip is requested only when the request carries no "+h, &Cut{Fn: f, Target: sets, NoInline: true,
+			Edge: EdgeRel(Rel{Op: token.EQL, X: get(h), Y: func(v ssa.Value) bool { return isEmptyStringConst(v) }}, false)},
+			"an application that sets its own Accept-Encoding gets a second gzip value sent and a transparently decompressed body (Content-Encoding / Content-Length removed) it did not ask for")
+	}
+}
+
+// C06.11: the two places that throw packets away wholesale keep bytes in flight in step. QueueProbePacket: every path
+// from DeclareLost to the return passes removeFromBytesInFlight, and that call comes before
+// queueFramesForRetransmission (which clears the packet's frames — afterwards the packet no longer looks
+// ack-eliciting). ResetForRetry: every return has passed bytesInFlight = 0.
+func c06WholesaleRemovalKeepsBytesInFlight(c *Ctx) {
+	const R = "C06.11"
+	q := c.fn(ah, "sentPacketHandler", "QueueProbePacket")
+	dl := c.obj(ah, "sentPacketHistory", "DeclareLost")
+	rm := c.obj(ah, "sentPacketHandler", "removeFromBytesInFlight")
+	qf := c.obj(ah, "sentPacketHandler", "queueFramesForRetransmission")
+	c.Floor(R, "DeclareLost in QueueProbePacket", countInstr(q, CallsTo(dl)), 1)
+	c.cut(R, "probe:a packet queued as probe leaves bytes in flight", &Cut{Fn: q, Start: CallsTo(dl), Target: isReturn, Barrier: CallsTo(rm), NoInline: true},
+		"the packet is declared lost and its frames are retransmitted in a new packet: its bytes must leave bytes_in_flight, unconditionally")
+	c.cut(R, "probe:bytes in flight are released before the frames are cleared", &Cut{Fn: q, Start: CallsTo(dl), Target: CallsTo(qf), Barrier: CallsTo(rm), NoInline: true},
+		"queueFramesForRetransmission empties the packet's frame lists; a test for ack-elicitingness after it is always false")
+	r := c.fn(ah, "sentPacketHandler", "ResetForRetry")
+	bif := c.fld(ah, "sentPacketHandler", "bytesInFlight")
+	zero := func(in ssa.Instruction) bool {
+		st, ok := in.(*ssa.Store)
+		return ok && fieldOfAddress(st.Addr) == bif && ConstI(0)(st.Val)
+	}
+	c.Floor(R, "bytesInFlight = 0 in ResetForRetry", countInstr(r, zero), 1)
+	c.cut(R, "retry:ResetForRetry zeroes bytes in flight on every path", &Cut{Fn: r, Target: isReturn, Barrier: zero, NoInline: true},
+		"both packet-number spaces are replaced and every frame is reported lost: whatever was in flight is gone, also when a PTO fired before the Retry")
+}
+
+// C01.13: a DATAGRAM frame the connection sends carries its length: SendDatagram builds the frame with
+// DataLenPresent = true. The packer puts the DATAGRAM frame before STREAM and control frames; without a length the
+// receiver takes the rest of the packet for datagram payload (the datagram is altered, the STREAM frames are
+// acknowledged but never processed).
+func c01DatagramFramesCarryTheirLength(c *Ctx) {
+	const R = "C01.13"
+	f := c.fn("", "Conn", "SendDatagram")
+	dlp := c.fld("internal/wire", "DatagramFrame", "DataLenPresent")
+	add := c.obj("", "datagramQueue", "Add")
+	sets := func(in ssa.Instruction) bool {
+		st, ok := in.(*ssa.Store)
+		return ok && fieldOfAddress(st.Addr) == dlp && isConstBool(st.Val, true)
+	}
+	c.Floor(R, "frames queued by SendDatagram", countInstr(f, CallsTo(add)), 1)
+	c.cut(R, "length:SendDatagram queues frames with DataLenPresent", &Cut{Fn: f, Target: CallsTo(add), Barrier: sets, NoInline: true},
+		"a DATAGRAM frame without length extends to the end of the packet, and the packer serialises other frames after it")
+}
+
+// dependsOnReadCount: a branch that dominates b compares the byte count returned by a Read call (the last bytes of a
+// body usually arrive together with the FIN: (n > 0, io.EOF) — an early end must be reported whatever n is).
+func dependsOnReadCount(b *ssa.BasicBlock) bool {
+	isCount := func(v ssa.Value) bool {
+		ex, ok := stripConv(v).(*ssa.Extract)
+		if !ok || ex.Index != 0 {
+			return false
+		}
+		cl, ok := ex.Tuple.(*ssa.Call)
+		if !ok {
+			return false
+		}
+		if cl.Call.IsInvoke() {
+			return cl.Call.Method.Name() == "Read"
+		}
+		return cl.Call.StaticCallee() != nil && cl.Call.StaticCallee().Name() == "Read"
+	}
+	for d := b; d != nil && d.Idom() != nil; d = d.Idom() {
+		id := d.Idom()
+		ifi, ok := id.Instrs[len(id.Instrs)-1].(*ssa.If)
+		if !ok || len(d.Preds) != 1 {
+			continue
+		}
+		if bo, ok := ifi.Cond.(*ssa.BinOp); ok && (isCount(bo.X) || isCount(bo.Y)) {
+			return true
+		}
+	}
+	return false
 }
